@@ -17,7 +17,8 @@ from gsim.core import procs
 from gsim.core.prng import digest, verif_seed
 
 VERIF = os.path.dirname(os.path.dirname(os.path.dirname(os.path.abspath(__file__))))
-OUT = os.path.join(VERIF, "out")
+OUT = os.environ.get("GSIM_OUT") or os.path.join(VERIF, "out")
+EVIDENCE_DIR = os.environ.get("GSIM_EVIDENCE_DIR") or os.path.join(VERIF, "evidence")
 KNOWN_FILE = os.path.join(VERIF, "known_findings.json")
 
 
@@ -71,8 +72,8 @@ def write_evidence(mod, tier, seed, agg, wall, violations_n, known_met):
         cov.update(mod.EXTRA_COVERAGE(agg))
     ev = {"property_id": mod.ID, "tier": tier, "seed": seed, "level": mod.LEVEL, "coverage": cov,
           "assumptions": mod.ASSUMPTIONS, "wall_s": round(wall, 2), "violations": violations_n}
-    os.makedirs(os.path.join(VERIF, "evidence"), exist_ok=True)
-    path = os.path.join(VERIF, "evidence", mod.ID + ".json")
+    os.makedirs(EVIDENCE_DIR, exist_ok=True)
+    path = os.path.join(EVIDENCE_DIR, mod.ID + ".json")
     tmp = path + ".tmp"
     with open(tmp, "w") as f:
         json.dump(ev, f, indent=1, default=str)
